@@ -104,13 +104,13 @@ impl RawConnector {
     #[inline(always)]
     fn right_feature_ids(&self, right_id: u16) -> &[U31x8] {
         &self.right_feat_ids[usize::from(right_id) * self.feat_template_size
-            ..usize::from(right_id + 1) * self.feat_template_size]
+            ..(usize::from(right_id) + 1) * self.feat_template_size]
     }
 
     #[inline(always)]
     fn left_feature_ids(&self, left_id: u16) -> &[U31x8] {
         &self.left_feat_ids[usize::from(left_id) * self.feat_template_size
-            ..usize::from(left_id + 1) * self.feat_template_size]
+            ..(usize::from(left_id) + 1) * self.feat_template_size]
     }
 }
 
